@@ -7,7 +7,9 @@ from ..sexp import S, unS, dump
 
 PIECES = [';', '#', '@', '[', ']', '$', '{', '}', ' ', '\t', 'a', '/', ':', '${VERIF_V}', '${VERIF_UNSET}', '${PROJECT_ROOT}', '${3RD_V}', '${9}', '${_U}', '${verif_v}', '$VERIF_V', '${VERIF_V', '${}', '%20', 'é', '　', '\n', '?q=1', '.']
 BASES = ['https://h/p', 'file:///a/b', 'git+https://h/r@v1', 'https://h', '${VERIF_V}', 'https://${VERIF_V}/p', 'hg+static-http://h/repo@v1', 'x-y.z+w://h/p']
-CONTEXTS = ['', ' ', " ; os_name == 'a'", ";os_name == 'a'", "; os_name == 'a'", " ;os_name == 'a'", ' #c', '# c', ' # c', '#c', '\n', "\n; os_name == 'a'", ' x', '　;os_name=="a"']
+CONTEXTS = ['', ' ', " ; os_name == 'a'", ";os_name == 'a'", "; os_name == 'a'", " ;os_name == 'a'", ' #c', '# c', ' # c', '#c', '\n', "\n; os_name == 'a'", ' x', '　;os_name=="a"',
+            # a line break after other white space ends the URL too
+            ' \n x', "\t\n; os_name == 'a'", ' \r\n', '  \n', " \t \n ;os_name=='a'"]
 ENVS = [None, 'x', 'a b', ' ;', '', 'é', 'https://q/', '${VERIF_V}', '#', '${VERIF_W}', 'a${VERIF_W}b/${VERIF_UNSET}']      # VERIF_W is always set to 'inner': expansion happens once
 
 
